@@ -1131,4 +1131,182 @@ theorem psd_omega_iff (d : Nat) (hd : 2 ≤ d) (x y : α) :
 end psd
 
 
+/-! ### Pauli strings -/
+
+section paulistrings
+set_option linter.style.haveILetI false
+
+theorem conj_mul (a b : GI) : (a * b).conj = a.conj * b.conj := by
+  apply GIring.ext
+  · simp [GI.conj]
+  · simp [GI.conj]; ring
+
+theorem pauliList_cons (a : Nat) (rest : List Nat) (i j : Nat) :
+    pauliList (a :: rest) i j
+      = pauli a (i / 2 ^ rest.length) (j / 2 ^ rest.length) * pauliList rest (i % 2 ^ rest.length) (j % 2 ^ rest.length) := by
+  cases rest with
+  | nil =>
+    show pauli a i j = pauli a (i / 1) (j / 1) * 1
+    rw [Nat.div_one, Nat.div_one]
+    apply GIring.ext <;> simp
+  | cons b r => rfl
+
+/-- Hilbert–Schmidt inner product of Kronecker products factorises -/
+theorem hsInner_kron (m n : Nat) (_hn : 0 < n) (Ac A' Bc B' : Nat → Nat → GI) :
+    Toq.Spec17.hsInner (m * n) (fun i j => Ac (i / n) (j / n) * Bc (i % n) (j % n))
+        (fun i j => A' (i / n) (j / n) * B' (i % n) (j % n))
+      = Toq.Spec17.hsInner m Ac A' * Toq.Spec17.hsInner n Bc B' := by
+  letI := GIring.commRing
+  unfold Toq.Spec17.hsInner
+  rw [sumN_flat n _ m]
+  rw [← sumN_mul_right]
+  apply sumN_congr; intro i1 _
+  rw [← sumN_mul_left]
+  apply sumN_congr; intro i2 hi2
+  rw [sumN_flat n _ m]
+  rw [← sumN_mul_right]
+  apply sumN_congr; intro k1 _
+  rw [← sumN_mul_left]
+  apply sumN_congr; intro k2 hk2
+  show Ac ((k1 * n + k2) / n) ((i1 * n + i2) / n) * Bc ((k1 * n + k2) % n) ((i1 * n + i2) % n)
+    * (A' ((k1 * n + k2) / n) ((i1 * n + i2) / n) * B' ((k1 * n + k2) % n) ((i1 * n + i2) % n)) = _
+  rw [flat_div n k1 k2 hk2, flat_mod n k1 k2 hk2, flat_div n i1 i2 hi2, flat_mod n i1 i2 hi2]
+  ring
+
+theorem pauli_hs (a b : Nat) (ha : a < 4) (hb : b < 4) :
+    Toq.Spec17.hsInner 2 (Toq.Spec17.conjM (pauli a)) (pauli b) = if a = b then GI.ofInt 2 else 0 := by
+  have : ∀ a, a < 4 → ∀ b, b < 4 →
+      Toq.Spec17.hsInner 2 (Toq.Spec17.conjM (pauli a)) (pauli b) = if a = b then GI.ofInt 2 else 0 := by decide
+  exact this a ha b hb
+
+theorem pauliList_hs : ∀ (l l' : List Nat), l.length = l'.length → (∀ a ∈ l, a < 4) → (∀ a ∈ l', a < 4) →
+    Toq.Spec17.hsInner (2 ^ l.length) (Toq.Spec17.conjM (pauliList l)) (pauliList l')
+      = if l = l' then GI.ofInt (2 ^ l.length) else 0
+  | [], [], _, _, _ => by decide
+  | [], _ :: _, h, _, _ => by simp at h
+  | _ :: _, [], h, _, _ => by simp at h
+  | a :: r, a' :: r', h, hl, hl' => by
+    letI := GIring.commRing
+    have hlen : r.length = r'.length := by simpa using h
+    have ih := pauliList_hs r r' hlen (fun x hx => hl x (List.mem_cons_of_mem _ hx))
+      (fun x hx => hl' x (List.mem_cons_of_mem _ hx))
+    have e1 : Toq.Spec17.conjM (pauliList (a :: r)) = fun i j =>
+        Toq.Spec17.conjM (pauli a) (i / 2 ^ r.length) (j / 2 ^ r.length)
+          * Toq.Spec17.conjM (pauliList r) (i % 2 ^ r.length) (j % 2 ^ r.length) := by
+      funext i j
+      show (pauliList (a :: r) i j).conj = _
+      rw [pauliList_cons, conj_mul]
+    have e2 : pauliList (a' :: r') = fun i j =>
+        pauli a' (i / 2 ^ r.length) (j / 2 ^ r.length) * pauliList r' (i % 2 ^ r.length) (j % 2 ^ r.length) := by
+      funext i j
+      rw [pauliList_cons, hlen]
+    have e3 : 2 ^ (a :: r).length = 2 * 2 ^ r.length := by rw [List.length_cons, Nat.pow_succ, Nat.mul_comm]
+    rw [e1, e2, e3, hsInner_kron 2 (2 ^ r.length) (Nat.two_pow_pos _), ih,
+      pauli_hs a a' (hl a (List.mem_cons_self)) (hl' a' (List.mem_cons_self))]
+    by_cases ha : a = a'
+    · by_cases hr : r = r'
+      · rw [if_pos ha, if_pos hr, if_pos (by rw [ha, hr]), ofInt_mul]
+        congr 1
+        rw [List.length_cons, pow_succ, mul_comm]
+      · rw [if_pos ha, if_neg hr, if_neg (fun hh => hr (List.cons.inj hh).2), mul_zero]
+    · rw [if_neg ha, if_neg (fun hh => ha (List.cons.inj hh).1), zero_mul]
+
+end paulistrings
+
+
+/-! ### norms of the loop-built vectors and of the Dicke states -/
+
+theorem pick_sq_sum (N : Nat) (idx : Nat → Nat) (c : Nat → Int) :
+    ∀ m, (∀ i, i < m → idx i < N) → (∀ i j, i < m → j < m → idx i = idx j → i = j) →
+      sumN N (fun j => pick m idx c j * pick m idx c j) = sumN m (fun i => c i * c i)
+  | 0, _, _ => by
+    show sumN N (fun j => pick 0 idx c j * pick 0 idx c j) = 0
+    exact sumN_zero' N _ (fun j _ => by show (0 : Int) * 0 = 0; rfl)
+  | m + 1, hlt, hinj => by
+    have ih := pick_sq_sum N idx c m (fun i hi => hlt i (by omega)) (fun i j hi hj => hinj i j (by omega) (by omega))
+    have h0 : pick m idx c (idx m) = 0 :=
+      pick_none idx c (idx m) m (fun i hi h => by have := hinj i m (by omega) (by omega) h; omega)
+    show _ = sumN m (fun i => c i * c i) + c m * c m
+    rw [← ih, ← sumN_ite_eq N (idx m) (hlt m (by omega)) (fun _ => c m * c m), ← sumN_add]
+    apply sumN_congr; intro j _
+    rw [pick_succ]
+    by_cases h : idx m = j
+    · rw [if_pos h, if_pos h.symm, ← h, h0]; ring
+    · rw [if_neg h, if_neg (Ne.symm h), add_zero]
+
+theorem ghzIdx_lt (d n i : Nat) (hi : i < d) : ghzIdx d n i < d ^ n := by
+  rw [ghzIdx_eq_enc]
+  have := enc_lt (fun _ => d) (fun _ => i) n (fun _ _ => hi)
+  have hp : ∀ m, prodN (fun _ => d) m = d ^ m := by
+    intro m; induction m with
+    | zero => rfl
+    | succ m ih => show prodN (fun _ => d) m * d = _; rw [ih, Nat.pow_succ]
+  rwa [hp] at this
+
+theorem ghzIdx_inj (d n : Nat) (hn : 0 < n) (i j : Nat) (hi : i < d) (hj : j < d)
+    (h : ghzIdx d n i = ghzIdx d n j) : i = j := by
+  rw [ghzIdx_eq_enc, ghzIdx_eq_enc] at h
+  exact enc_inj (fun _ => d) (fun _ => i) (fun _ => j) n (fun _ _ => hi) (fun _ _ => hj) h 0 hn
+
+theorem popcount_succ_high (n j : Nat) : popcount (n + 1) j = popcount n j + (if j.testBit n then 1 else 0) := rfl
+
+theorem popcount_low (n j : Nat) (hj : j < 2 ^ n) : popcount (n + 1) j = popcount n j := by
+  rw [popcount_succ_high, Nat.testBit_lt_two_pow hj]; rfl
+
+theorem popcount_high (n j : Nat) (hj : j < 2 ^ n) : popcount (n + 1) (2 ^ n + j) = popcount n j + 1 := by
+  rw [popcount_succ_high, Nat.testBit_two_pow_add_eq, Nat.testBit_lt_two_pow hj]
+  show popcount n (2 ^ n + j) + 1 = popcount n j + 1
+  congr 1
+  unfold popcount
+  apply sumN_congr; intro b hb
+  rw [Nat.testBit_two_pow_add_gt hb]
+
+/-- the number of `n`-bit strings with `k` ones is the binomial coefficient -/
+theorem dicke_count : ∀ n k, sumN (2 ^ n) (fun j => dickeS n k j * dickeS n k j) = (choose n k : Int)
+  | 0, 0 => by decide
+  | 0, k + 1 => by
+    show (0 : Int) + dickeS 0 (k + 1) 0 * dickeS 0 (k + 1) 0 = 0
+    have : dickeS 0 (k + 1) 0 = 0 := by
+      unfold dickeS popcount
+      rw [if_neg]; rintro ⟨_, h⟩; simp [sumN] at h
+    rw [this]; rfl
+  | n + 1, k => by
+    rw [Nat.pow_succ, Nat.mul_two, sumN_add_range]
+    have hlow : sumN (2 ^ n) (fun j => dickeS (n + 1) k j * dickeS (n + 1) k j) = (choose n k : Int) := by
+      rw [← dicke_count n k]
+      apply sumN_congr; intro j hj
+      have : dickeS (n + 1) k j = dickeS n k j := by
+        unfold dickeS
+        rw [popcount_low n j hj]
+        by_cases h : popcount n j = k
+        · rw [if_pos ⟨by rw [Nat.pow_succ]; omega, h⟩, if_pos ⟨hj, h⟩]
+        · rw [if_neg (fun hh => h hh.2), if_neg (fun hh => h hh.2)]
+      rw [this]
+    rw [hlow]
+    cases k with
+    | zero =>
+      have hz : sumN (2 ^ n) (fun j => dickeS (n + 1) 0 (2 ^ n + j) * dickeS (n + 1) 0 (2 ^ n + j)) = 0 := by
+        apply sumN_zero'; intro j hj
+        have : dickeS (n + 1) 0 (2 ^ n + j) = 0 := by
+          unfold dickeS
+          rw [popcount_high n j hj, if_neg (fun hh => by omega)]
+        rw [this]; rfl
+      rw [hz]; simp [choose]
+    | succ k =>
+      have hhigh : sumN (2 ^ n) (fun j => dickeS (n + 1) (k + 1) (2 ^ n + j) * dickeS (n + 1) (k + 1) (2 ^ n + j))
+          = (choose n k : Int) := by
+        rw [← dicke_count n k]
+        apply sumN_congr; intro j hj
+        have : dickeS (n + 1) (k + 1) (2 ^ n + j) = dickeS n k j := by
+          unfold dickeS
+          rw [popcount_high n j hj]
+          by_cases h : popcount n j = k
+          · rw [if_pos ⟨by rw [Nat.pow_succ]; omega, by omega⟩, if_pos ⟨hj, h⟩]
+          · rw [if_neg (fun hh => h (by omega)), if_neg (fun hh => h hh.2)]
+        rw [this]
+      rw [hhigh]
+      show ((choose n (k + 1) : Nat) : Int) + (choose n k : Int) = ((choose n k + choose n (k + 1) : Nat) : Int)
+      push_cast; ring
+
+
 end Toq.States
